@@ -509,6 +509,9 @@ def ser_stubs(cx, engine):
     def h_symbol(engine, st, fr, callee, argv, m):
         return T(Term("symbol", unref(st, argv[0])))
 
+    def h_other_ctor(engine, st, fr, callee, argv, m):
+        return T(Term(m.group(1), *[term_of(st, a) if isinstance(unref(st, a), (Opaque, EnumV)) else unref(st, a) for a in argv]))
+
     def h_list(engine, st, fr, callee, argv, m):
         v = unref(st, argv[0])
         return T(Term("list", tuple(v.attrs.get("items", ("?",))) if isinstance(v, Opaque) else ("?",)))
@@ -547,6 +550,7 @@ def ser_stubs(cx, engine):
         (re.compile(r"^Value::cons::<"), h_cons),
         (re.compile(r"^Value::symbol::<"), h_symbol),
         (re.compile(r"^Value::list::<"), h_list),
+        (re.compile(r"^Value::(keyword|string|bytes|vector|append)::<"), h_other_ctor),
         (re.compile(r"^<Vec<Value> as Into<Box<\[Value\]>>>::into$"), h_into_box),
         (re.compile(r"^(to_value::<|<\w+ as Serialize>::serialize::<)"), h_ser),
         (re.compile(r"^Vec::<Value>::push$"), h_push),
